@@ -97,7 +97,7 @@ def install(world):
                        "forall2(rows, columns, lambda r, c: 0 <= self._volumes[r, c] and self._volumes[r, c] <= self.max_volume)", ["C20", "C02"]),
             ("history", "length(self._history) == 1 and same(self._history[0], self._volumes) and not_aliased(self._history[0], self._volumes)"
                         " and length(self._labels) == 1 and self._labels[0] == 'initial'", ["C20", "C11"]),
-            ("own-volume-array", "not_aliased(self._volumes, live_initial_volumes) if is_arraylike(initial_volumes) else True", ["C20", "C04"]),
+            ("own-volume-array", "not_aliased(self._volumes, live_initial_volumes) if is_arraylike(initial_volumes) else True", ["C20", "C04", "C02"]),
             ("attributes", "self.name == name and self.min_volume == min_volume and self.max_volume == max_volume and "
                            "(self.virtual_rows is None if is_none(virtual_rows) else self.virtual_rows == virtual_rows)", ["C20"]),
         ],
